@@ -915,6 +915,131 @@ def rule_accum_once(ctx):
     return obs
 
 
+# ------------------------------------------------------------------------------------------ CAPACITY (target level of an insert)
+def _lin(t):
+    """(constant, {atom: coefficient}) of a term built from +, -, literals and casts; anything else is an atom"""
+    t = strip_cast(t)
+    while t[0] == 'cast':
+        t = strip_cast(t[2])
+    if t[0] == 'lit' and isinstance(t[1], int):
+        return t[1], {}
+    if t[0] == 'op' and len(t) == 4 and t[1] in ('+', '-'):
+        c1, a1 = _lin(t[2])
+        c2, a2 = _lin(t[3])
+        sg = 1 if t[1] == '+' else -1
+        out = dict(a1)
+        for k, v in a2.items():
+            out[k] = out.get(k, 0) + sg * v
+        return c1 + sg * c2, {k: v for k, v in out.items() if v}
+    return 0, {t: 1}
+
+
+def rule_capacity(ctx):
+    """insert(): the level chosen as the target of a merge has room for everything merged into it.  With A the running count
+    (initially the full buffer plus the new item, increased by the size of every level that is skipped), a level x may be
+    chosen only if A + level(x).size() <= max_size(x).  Decided from (i) the initial value of A: buffer size + c0, (ii) the
+    test that chooses the level, normalised to A + level(x).size() - max_size(x) + c (<|<=) 0; required c0 + c_eff >= 1, where
+    c_eff = c for <= and c + 1 for <.  Without the +1 a level whose free room equals the merged size is chosen and ends up one
+    entry above its capacity base^i."""
+    obs = []
+    what = 'the level chosen as merge target has room for the buffer, the new item and every level merged into it: A + level(x).size() <= max_size(x) with A counting the new item'
+    for f in ctx.need('pgm::DynamicPGMIndex::insert'):
+        g = graph(f)
+        is_max = lambda a: a[0] == 'call' and str(a[1]).endswith('::max_size')
+        is_size = lambda a: a[0] == 'call' and str(a[1]).endswith('::size') and a[3] is not None and strip_cast(a[3])[0] == 'call' and str(strip_cast(a[3])[1]).endswith('::level')
+        tests = []
+        for i in f.all_ids():
+            nd = f.n(i)
+            if nd['c'] == 'BinaryOperator' and nd['op'] in ('<', '<=', '>', '>=') and reachable(f, i):
+                t = f.term(i, inline=True)
+                c1, a1 = _lin(t[2])
+                c2, a2 = _lin(t[3])
+                at = dict(a1)
+                for k, v in a2.items():
+                    at[k] = at.get(k, 0) - v
+                at = {k: v for k, v in at.items() if v}
+                if any(is_max(k) for k in at):
+                    tests.append((i, nd['op'], c1 - c2, at))
+        if not tests:
+            obs.append(Ob('CAPACITY', f, 0, what, 'no comparison against max_size(.) found in insert()', UNDECIDED, arm='target'))
+            continue
+        for (i, op, c, at) in tests:
+            mx = [k for k in at if is_max(k)]
+            sz = [k for k in at if is_size(k)]
+            acc = [k for k in at if k[0] == 'local' and len(k) == 3]
+            if len(mx) != 1 or len(sz) != 1 or len(acc) != 1 or len(at) != 3 or at[mx[0]] * at[sz[0]] != -1 or at[acc[0]] != at[sz[0]]:
+                obs.append(Ob('CAPACITY', f, i, what, f"unrecognised capacity test `{fmt_term(f.term(i, inline=False))[:90]}`", UNDECIDED, arm='target'))
+                continue
+            if strip_cast(mx[0][2][0]) != strip_cast(strip_cast(sz[0][3])[2][0]):
+                obs.append(Ob('CAPACITY', f, i, what, f"the test compares the size of level `{fmt_term(strip_cast(sz[0][3])[2][0])}` with the capacity of level `{fmt_term(mx[0][2][0])}`", VIOLATED, arm='target'))
+                continue
+            # orientation: expr = s * (A + size - max) + c   op   0
+            sgn = at[acc[0]]
+            A = acc[0]
+            d = f.defs.get(A[2], {})
+            adds = [w for w in d.get('writes', []) if f.n(w)['c'] == 'CompoundAssignOperator' and f.n(w).get('op') == '+=']
+            other = [w for w in d.get('writes', []) if w not in adds]
+            # initial value: the initialiser, or the single plain assignment that precedes the loop
+            init = d.get('init')
+            if not init and len(other) == 1 and f.n(other[0])['c'] == 'BinaryOperator' and f.n(other[0]).get('op') == '=':
+                init = f.n(other[0])['ch'][1]
+                other = []
+            if not init or other or not adds:
+                obs.append(Ob('CAPACITY', f, i, what, f"the running count `{A[1]}` is not `initial value, then += level(.).size()`", UNDECIDED, arm='target'))
+                continue
+            c0, a0 = _lin(f.term(init, inline=True))
+            base_ok = len(a0) == 1 and list(a0.values()) == [1] and (list(a0)[0] == ('field', 'buffer_max_size', ('this',)) or
+                                                                    (is_size(list(a0)[0]) and strip_cast(strip_cast(list(a0)[0][3])[2][0]) == ('field', 'min_level', ('this',))))
+            if not base_ok:
+                obs.append(Ob('CAPACITY', f, init, what, f"initial count `{fmt_term(f.term(init, inline=False))[:60]}` is not the buffer size plus a constant", UNDECIDED, arm='target'))
+                continue
+            bad_add = [w for w in adds if not any(is_size(x) for x in _lin(f.term(f.n(w)['ch'][1], inline=True))[1])]
+            if bad_add:
+                obs.append(Ob('CAPACITY', f, bad_add[0], what, f"the running count is increased by `{fmt_term(f.term(f.n(bad_add[0])['ch'][1], inline=False))[:50]}`, not by the size of the skipped level", UNDECIDED, arm='target'))
+                continue
+            # which edge of the test goes on to the next level (reaches a `+=` without passing the test again)?
+            pb = f.block_of(i)
+            tb = None
+            def eff(cn):
+                # the operand that decides the branch: for `a && b` as a loop/if condition the block that evaluates b has the
+                # whole conjunction as its terminator condition
+                cn = f.strip(cn)
+                while cn and f.n(cn)['c'] == 'BinaryOperator' and f.n(cn)['op'] in ('&&', '||'):
+                    cn = f.strip(f.n(cn)['ch'][1])
+                return cn
+            for b in g.reach:
+                if g.cond(b) and eff(g.cond(b)) == i and f.block_of(i) and f.block_of(i)[0] == b:
+                    tb = b
+            if tb is None:
+                obs.append(Ob('CAPACITY', f, i, what, 'the capacity test is not a branch condition of its own (part of a larger condition)', UNDECIDED, arm='target'))
+                continue
+            addb = {f.block_of(w)[0] for w in adds if f.block_of(w)}
+            def reaches(e):
+                return e is not None and (e in addb or bool(g.reachable_from(e, blocked={tb}) & addb))
+            et, ef = g.succ[tb][0], g.succ[tb][1]
+            rt, rf = reaches(et), reaches(ef)
+            if rt == rf:
+                obs.append(Ob('CAPACITY', f, i, what, 'cannot tell which edge of the capacity test moves on to the next level', UNDECIDED, arm='target'))
+                continue
+            choose_on_true = rf
+            # condition under which the level is chosen, as  (A + size - max) + c'  rel  0
+            rel = op if choose_on_true else {'<': '>=', '<=': '>', '>': '<=', '>=': '<'}[op]
+            cc = c
+            if sgn < 0:
+                rel = {'<': '>', '<=': '>=', '>': '<', '>=': '<='}[rel]
+                cc = -c
+            if rel not in ('<', '<='):
+                obs.append(Ob('CAPACITY', f, i, what, f"the level is chosen when `{fmt_term(f.term(i, inline=False))[:80]}` is {'true' if choose_on_true else 'false'}: that is a lower bound on the occupancy, not room for the merge", VIOLATED, arm='target'))
+                continue
+            c_eff = cc if rel == '<=' else cc + 1
+            ok = c0 + c_eff >= 1
+            obs.append(Ob('CAPACITY', f, i if ok else init, what,
+                          f"count starts at buffer size {c0:+d}; level x is chosen when count + level(x).size() - max_size(x) {cc:+d} {rel} 0" +
+                          ('' if ok else ': the new item is not counted, so a level whose free room equals the merged size is chosen and ends one entry above its capacity'),
+                          OK if ok else VIOLATED, arm='target'))
+    return obs
+
+
 def rules_c15(ctx):
     # levels stay strictly sorted only if the merge emits each key once, in order (the per-branch and bulk-emission clauses)
-    return rule_index_sync(ctx) + rule_accum_once(ctx) + [o for o in rule_merge_precedence(ctx) if o.arm in ('older-smaller', 'newer-smaller', 'tie', 'bulk')]
+    return rule_index_sync(ctx) + rule_accum_once(ctx) + rule_capacity(ctx) + [o for o in rule_merge_precedence(ctx) if o.arm in ('older-smaller', 'newer-smaller', 'tie', 'bulk')]
